@@ -350,16 +350,18 @@ theorem step_parseFunc (T : Tables) (F : Nat) (ih : AllGood T F) :
   split
   · exact postParse_err s
   · simp only []
-    have := parse_then_loop T F s hreq
+    have h1 := scan_le T s
+    generalize scan T s = q at h1 ⊢
+    obtain ⟨r1, s1⟩ := q
+    simp only at h1 ⊢
+    have := parse_then_loop' T F s1 (by omega)
       (fun r' s' => funcLoop T F (!(knownFuncs.map str).contains s.tok) s.tok []
-        (s.tok ++ (match r' with | .rune c => (String.singleton (Char.ofNat c)).toUTF8.toList | _ => [])) r' s')
+        (s.tok ++ (match r1 with | .rune c => (String.singleton (Char.ofNat c)).toUTF8.toList | _ => [])) r' s')
       (fun r' s' h => hl _ _ [] _ r' s' h)
       (fun s' hF => by
         obtain ⟨n, rfl⟩ : ∃ n, F = n + 1 := ⟨F - 1, by omega⟩
         exact ⟨_, funcLoop_eof T n _ _ [] _ s'⟩)
-    generalize scan T s = q at this ⊢
-    obtain ⟨r1, s1⟩ := q
-    exact this
+    exact postParse_mono this h1
 
 
 theorem dealWithNumbers_le (T : Tables) (s : Sc) : rem (dealWithNumbers T s).1 ≤ rem s := by
@@ -449,8 +451,8 @@ theorem step_funcLoop (T : Tables) (F : Nat) (ih : AllGood T F) :
         split
         · exact postLoop_err s
         · exact postLoop_err s
-        · exact postLoop_panic s
-        · exact postLoop_panic s
+        · exact postLoop_err s
+        · exact postLoop_err s
         · exact hnext _ _ s1 hd hr
 
 
